@@ -35,4 +35,13 @@ let () =
       let seq = (sl a = sl b) in
       let scp = hex_of_bytes (sl a @ [0]) in
       Printf.printf "M eq=%b copy=%s\nS eq=%b copy=%s\n" eq cp seq scp
+    | ["W"; hex1; hex2; o1; l1; o2; l2] ->
+      let mk o l = { StatusModel.v_off = nat_of_int (int_of_string o); StatusModel.v_len = nat_of_int (int_of_string l) } in
+      let a = mk o1 l1 and b = mk o2 l2 in
+      let run hex =
+        let mem = List.map z_of_int (bytes_of_hex hex) in
+        let sl v = List.map int_of_z (StatusModel.slice mem v) in
+        StatusModel.sv_equals mem a b, (sl a = sl b) in
+      let (m1, s1) = run hex1 and (m2, s2) = run hex2 in
+      Printf.printf "M eq1=%b eq2=%b\nS eq1=%b eq2=%b\n" m1 m2 s1 s2
     | _ -> Printf.printf "M ?\nS ?\n")
